@@ -63,9 +63,18 @@ func (v Val) Go() interface{} {
 		return string(v.X)
 	case "b":
 		return v.B
+	case "u": // a Go value of a kind mkdb does not store: unsigned 64-bit (bit pattern in I)
+		return uint64(v.I)
+	case "f":
+		return float64(v.I) + 0.5
 	}
 	return nil
 }
+
+// Uint and Float build values of Go kinds no column type takes (wrong-typed
+// for every column; only expressible as direct statement values).
+func Uint(u uint64) Val { return Val{T: "u", I: int64(u)} }
+func Float(i int64) Val { return Val{T: "f", I: i} }
 
 func FromGo(x interface{}) Val {
 	switch x := x.(type) {
